@@ -240,7 +240,7 @@ func main() {
 			idx = append(idx, i)
 		}
 	}
-	if len(ops) > 0 {
+	if len(ops) > 0 && *driver != "none" { // "none": the model driver could not be built; only the direct oracles decide
 		lines, err := runDriver(*driver, ops)
 		if err != nil {
 			rep.Error = err.Error()
